@@ -11,3 +11,4 @@ INVARIANT CensoredOnlySurvival
 INVARIANT Finite
 INVARIANT DerivativeClosed
 INVARIANT CloseIsOrdinary
+INVARIANT HazardTimesSurvival
